@@ -372,9 +372,60 @@ func (res *CheckResult) checkExpression(lit parser.ValueExpr, requiredType strin
 	case *parser.StringLiteral:
 		res.assertHasType(lit, requiredType, TypeString)
 	case *parser.BinaryInfix:
-		res.checkExpression(lit.Left, TypeAny)
-		res.checkExpression(lit.Right, TypeAny)
+		// "+" and "-" are defined on numbers and on monetaries:
+		// both operands have the type of the result
+		operandsType := requiredType
+		if requiredType == TypeAny {
+			operandsType = res.staticTypeOf(lit.Left)
+		}
+		switch operandsType {
+		case TypeNumber, TypeMonetary, TypeAny:
+			// ok
+		default:
+			if requiredType == TypeAny {
+				// the left operand is neither a number nor a monetary
+				res.assertHasType(lit.Left, TypeNumber, operandsType)
+			} else {
+				got := res.staticTypeOf(lit)
+				if got != TypeMonetary {
+					got = TypeNumber
+				}
+				res.assertHasType(lit, requiredType, got)
+			}
+			operandsType = TypeAny
+		}
+		res.checkExpression(lit.Left, operandsType)
+		res.checkExpression(lit.Right, operandsType)
 	}
+}
+
+// The type an expression has on its own, or TypeAny when it cannot be told
+func (res *CheckResult) staticTypeOf(expr parser.ValueExpr) string {
+	switch expr := expr.(type) {
+	case *parser.Variable:
+		if expr != nil {
+			if decl, ok := res.declaredVars[expr.Name]; ok && decl.Type != nil && isTypeAllowed(decl.Type.Name) {
+				return decl.Type.Name
+			}
+		}
+	case *parser.MonetaryLiteral:
+		return TypeMonetary
+	case *parser.AccountLiteral:
+		return TypeAccount
+	case *parser.RatioLiteral:
+		return TypePortion
+	case *parser.AssetLiteral:
+		return TypeAsset
+	case *parser.NumberLiteral:
+		return TypeNumber
+	case *parser.StringLiteral:
+		return TypeString
+	case *parser.BinaryInfix:
+		if expr != nil {
+			return res.staticTypeOf(expr.Left)
+		}
+	}
+	return TypeAny
 }
 
 func (res *CheckResult) assertHasType(lit parser.ValueExpr, requiredType string, actualType string) {
